@@ -161,6 +161,20 @@ def run():
             rid = f"P{len(reqs)}"
             reqs.append({"id": rid, "src": pre + c_, "fuel": 60000, "depth": 150, "deadline_ms": 4000})
             meta[rid] = ("protocol", str(pk), c_, 0)
+    # one-liners (no source path) working with files of the directory they were started in: several relative invite! / import / read in a row,
+    # failing ones in between, modules that invite or import each other
+    tree = {"m1.pangaea": "a := 1\n", "m2.pangaea": "b := 2\n", "m3.pangaea": "invite!(\"./m1\"); c := a + 10\n", "bad.pangaea": "x := (1 +\n", "boom.pangaea": "d := 1 / 0\n",
+            "sub/m4.pangaea": "invite!(\"../m2\"); e := b * 2\n", "sub/m5.pangaea": "f := import(\"./m4\").e\n"}
+    steps = ["invite!(\"./m1\")", "invite!(\"./m2\")", "invite!(\"./m3\")", "invite!(\"./sub/m4\")", "import(\"./m1\").a.p", "import(\"./sub/m5\").f.p", "nil.try.{|u| invite!(\"./bad\")}.A.p",
+             "nil.try.{|u| invite!(\"./boom\")}.A.p", "nil.try.{|u| invite!(\"./nosuch\")}.A.p", "nil.try.{|u| import(\"./nosuch\")}.A.p", "_PANGAEA_SOURCE_PATH.p" if False else "nil.try.{|u| _PANGAEA_SOURCE_PATH}.A.p",
+             "{|| invite!(\"./m2\"); b}().p", "nil.try.{|u| read(\"./m1.pangaea\")}.A.p", "invite!(\"dummy\")", "\"invite!(\\\"./m1\\\")\".eval", "[1, 2]@{|i| invite!(\"./m1\"); a + i}.p"]
+    for x in range(len(steps)):
+        for y in range(len(steps)):
+            for z in ([None] if not thorough else [None] + list(range(0, len(steps), 3))):
+                seq = [steps[x], steps[y]] + ([steps[z]] if z is not None else []) + ["nil.try.{|u| [a, b]}.A.p"]
+                rid = f"F{len(reqs)}"
+                reqs.append({"id": rid, "mode": "runsource", "src": "\n".join(seq), "files": tree, "main": "", "fuel": 100000, "depth": 150, "deadline_ms": 5000})
+                meta[rid] = ("relative-modules", steps[x], steps[y], 0)
     # wide and deep programs: counts around every power of two a table, cache or buffer might be sized by
     for n in ([63, 64, 65, 66, 127, 128, 129, 255, 256, 257, 1023, 1024, 1025, 4097] if thorough else [64, 65, 129, 257, 1025]):
         args = ", ".join(str(k) for k in range(1, n + 1))
@@ -349,7 +363,7 @@ def run():
                       f"tuples ({len(argsets)}: none, one from a {len(SUB12) if not thorough else len(POOL)}-value pool, pairs from a sub-pool, keyword / * / ** forms); token space: all pairs of {len(reps)} token "
                       "representatives (from the real lexer over the corpus + malformed tokens) + seeded triples; byte-level mutations of corpus files; index/slice space "
                       "on 15 receivers x 26 indices x 4 forms; derived structures (20 key kinds x 17 builders x 33 consumers: conversions such as Arr#O / Arr#M over descendants of str, then ** / * expansion, "
-                      "iteration, printing, JSON); the value of bodies ending in each statement kind (defer / return / yield / raise, guarded, nested) in 20 uses; module functions (import / invite! / http constructors and client) x 20 argument kinds; wide and deep programs (22 shapes x counts 64..1025, thorough 63..4097); user objects implementing the protocols natives call back into (4 roots x 52 consumers); iterator literals (0..3 parameters x 0..4 arguments to new x 0..4 to recur x keywords x 4 ways to advance); calls that ended in an error made three more times in one process; stdin shapes through <>; interactive sessions: sessions of <= 4 (thorough 5) lines over 12 line kinds that PanRepl allows (quick: 4000 seeded of 22621; thorough: 60000 seeded of all), typed into "
+                      "iteration, printing, JSON); the value of bodies ending in each statement kind (defer / return / yield / raise, guarded, nested) in 20 uses; module functions (import / invite! / http constructors and client) x 20 argument kinds; wide and deep programs (22 shapes x counts 64..1025, thorough 63..4097); user objects implementing the protocols natives call back into (4 roots x 52 consumers); one-liners that invite / import / read files of their directory (16 steps, all pairs); iterator literals (0..3 parameters x 0..4 arguments to new x 0..4 to recur x keywords x 4 ways to advance); calls that ended in an error made three more times in one process; stdin shapes through <>; interactive sessions: sessions of <= 4 (thorough 5) lines over 12 line kinds that PanRepl allows (quick: 4000 seeded of 22621; thorough: 60000 seeded of all), typed into "
                       "runscript.StartREPL and compared with the transcript PanRepl prescribes (chunks evaluated in one scope), + seeded sessions over mode words in every capitalisation; a seeded sample again through runscript.RunSource; non-trivial = runs ending in a "
                       "Pangaea error (a built-in was reached with arguments it has to reject)")
     ck.assumptions = ["programs cut off by the evaluation fuel / depth / deadline / heap watchdog are discarded (the property's proviso)",
